@@ -84,15 +84,28 @@ def make_scene(rng, genes, key, count, hit_pool=None):
     return {"L": length, "circ": circ, "cutoff": 0, "locs": locs, "hits": hits}
 
 
-def random_big_scene(rng):
-    circ = rng.random() < 0.6
+def random_big_scene(rng, spliced=False):
+    """ spliced: some genes come in two exons (on rings anywhere, so that a rotation can put the origin into the intron) """
+    circ = rng.random() < 0.6 or spliced
     length = rng.choice([24, 30, 41])
     locs = []
     for _ in range(rng.randrange(4, 8)):
         size = rng.randrange(1, 4)
         start = rng.randrange(0, length)
         strand = rng.choice([1, -1])
-        if start + size <= length:
+        if spliced and rng.random() < 0.4:
+            first, gap, second = rng.randrange(1, 3), rng.randrange(1, 4), rng.randrange(1, 3)
+            walk = [(start + x) % length for x in list(range(first)) + list(range(first + gap, first + gap + second))]
+            parts, begin, prev = [], walk[0], walk[0]
+            for pos in walk[1:]:
+                if pos != prev + 1:
+                    parts.append([begin, prev + 1])
+                    begin = pos
+                prev = pos
+            parts.append([begin, prev + 1])
+            if strand == -1:
+                parts.reverse()
+        elif start + size <= length:
             parts = [[start, start + size]]
         elif circ:
             parts = [[start, length], [0, start + size - length]]
